@@ -3,7 +3,7 @@
     replays the failing ones on the implementation).  No proofs. *)
 From Coq Require Import List Bool Arith ZArith.
 Import ListNotations.
-Require Import Nib.C17.AnteFacts Nib.C17.MsgTree Nib.C17.Model Nib.C17.Spec Nib.C17.Check.
+Require Import Nib.C17.AnteFacts Nib.C17.CarrierTree Nib.C17.Model Nib.C17.Spec Nib.C17.Check.
 Local Open Scope Z_scope.
 
 Definition cv (op : addr) (r : Z) : msg := Leaf (CreateVal op r ONE ONE).
@@ -28,7 +28,13 @@ Definition family (r : Z) : list (list tx) := [
   [mk_tx 1 5 NoExt [Leaf (Send 1); cv 1 r]];
   [mk_tx 1 5 NoExt [Exec 1 [Exec 1 [Leaf (Send 1)]; cv 1 r]]];
   [mk_tx 0 5 NoExt [Wasm 0 10 [Exec 10 [Leaf (Send 10)]; cv 10 r]]];
-  [mk_tx 1 5 NoExt [cv 1 100000000000000000]; mk_tx 1 86400 NoExt [Exec 1 [Leaf (Send 1)]; ed 1 r]]
+  [mk_tx 1 5 NoExt [cv 1 100000000000000000]; mk_tx 1 86400 NoExt [Exec 1 [Leaf (Send 1)]; ed 1 r]];
+  (* x/group proposals with Exec = TRY (policy account 12; members 1 and the contract) *)
+  [mk_tx 1 5 NoExt [Group 1 12 true [cv 12 r]]];
+  [mk_tx 1 5 NoExt [Exec 1 [Group 1 12 true [cv 12 r]]]];
+  [mk_tx 0 5 NoExt [Wasm 0 10 [Group 10 12 true [cv 12 r]]]];
+  [mk_tx 1 5 NoExt [Group 1 12 true [Leaf (Send 12); cv 12 r]]];
+  [mk_tx 1 5 NoExt [Group 1 12 true [cv 12 100000000000000000]]; mk_tx 1 86400 NoExt [Group 1 12 true [ed 12 r]]]
 ].
 
 Definition sweep_cases : list (list tx) :=
